@@ -80,6 +80,9 @@ Proof.
   all: try solve [ rewrite I; cbn; apply Permutation_cons_app; rewrite app_assoc; reflexivity ].
   all: try solve [ rewrite I; do 2 apply Permutation_app_head; upd_fact; rewrite <- F; cbn; apply Permutation_middle ].
   all: try solve [ rewrite I; rewrite !app_assoc; apply Permutation_middle ].
+  (* nested assign *)
+  all: try solve [ pcount ].
+  all: try solve [ upd_fact; clear ND; pcount ].
 Qed.
 
 (* ------------------------------------------------------------------ busy_counter *)
@@ -172,7 +175,10 @@ Proof.
                           | apply busy_zero_running; auto; lia ] ].
   all: try solve [ intros _; apply B; reflexivity ].
   all: try solve [ match goal with C : pc0 _ = _ |- _ => rewrite C in *; cbn in * end; assumption ].
-
+  (* a worker inside a task body (pushing) while the client is past the test: impossible *)
+  all: try solve [ intros W; destruct (B W) as [Q R]; exfalso;
+                   match goal with E : nth_error (workers _) _ = Some ?x, P : w_pc ?x = _ |- _ =>
+                     pose proof (running_nil_wt _ _ _ R E) as WX; unfold wt in WX; rewrite P in WX; discriminate WX end ].
 Qed.
 
 (* ------------------------------------------------------------------ every worker is in the pool list,
@@ -311,6 +317,12 @@ Proof.
                          | exfalso; destruct (K (killing_inkill _ _ D2)) as [K1 K2]; congruence ] ].
   all: try solve [ intros j y Hy A; apply upd_nth_inv in Hy; destruct Hy as [[<- ->]|[N Hy]]; [| apply D; assumption];
                    cbn in *; eapply D; eauto ].
+  (* a task body pushing while a kill is in progress: the worker would be busy *)
+  all: try solve [ intros IK; destruct (K IK) as [K1 K2]; exfalso;
+                   match goal with E : nth_error (workers _) _ = Some ?x, P : w_pc ?x = _ |- _ =>
+                     pose proof (Forall_nth_error _ _ _ _ F E) as FX; unfold BusyOk in FX; rewrite P in FX;
+                     assert (w_busy x = true) by (apply FX; discriminate);
+                     assert (w_busy x = false) by (eapply busy_zero_notbusy; [| exact E]; lia); congruence end ].
 Qed.
 
 (* ------------------------------------------------------------------ a dead state has no way out *)
